@@ -24,6 +24,7 @@ import (
 	"os"
 	"path/filepath"
 	"strings"
+	"syscall"
 	"testing"
 	"time"
 	"unicode/utf8"
@@ -348,7 +349,7 @@ func fmtArgs(f string, form int) []string {
 	return []string{"--" + f}
 }
 
-const nDataForms = 9
+const nDataForms = 10
 
 // dataArgs builds the option that gives macat its payload and returns the
 // bytes that payload is; form names the spelling for signatures.
@@ -391,6 +392,29 @@ func dataArgs(c *mon.Case, n, cls, form int) (args []string, data []byte, name s
 	}
 	data = mkBody(c.Rand, n, cls, false)
 	path := filepath.Join(hx.ScratchDir(), hx.Uniq("f"))
+	if form == 9 {
+		// --file naming something that is not a regular file (a FIFO, as with /dev/stdin or <(cmd)): its
+		// size is not known before it is read
+		if err := syscall.Mkfifo(path, 0o600); err != nil {
+			envFail("mkfifo: %v", err)
+		}
+		go func() {
+			w, err := os.OpenFile(path, os.O_WRONLY, 0)
+			if err != nil {
+				return
+			}
+			w.Write(data)
+			w.Close()
+		}()
+		c.Cleanup(func() {
+			// release a writer nobody ever read from, then remove the name
+			if r, err := os.OpenFile(path, os.O_RDONLY|syscall.O_NONBLOCK, 0); err == nil {
+				r.Close()
+			}
+			os.Remove(path)
+		})
+		return []string{"--file", path}, data, "file-fifo"
+	}
 	if err := os.WriteFile(path, data, 0o644); err != nil {
 		envFail("%v", err)
 	}
